@@ -150,8 +150,10 @@ CLAIMED = {
              "assumed) each handler returns normally; the listener leaves a store satisfying the store invariant; a reply that "
              "is produced is the compressed serialisation of the reply packet and parses back to it when the registered records "
              "are well-formed and the reply has < 65536 records per section (and then the build step cannot fail). Threads, the "
-             "RwLock, sockets and the tokio twins are outside the model; the same loop bodies are driven on the implementation "
-             "through the cfg(simple_dns_verif) wrappers with empty / short / malformed / hostile datagrams against generated stores.",
+             "RwLock and sockets are outside the model; the same loop bodies are driven on the implementation through the "
+             "cfg(simple_dns_verif) wrappers with empty / short / malformed / hostile datagrams against generated stores, every "
+             "ingesting case through both the sync listener and the tokio listener's separate copy of the ingest code (outputs "
+             "must be identical).",
         technique="Coq proof (composition of parser totality, store totality and the compressed round trip) + model/implementation correspondence on datagram pipelines",
         ref="DESIGN.md section 6, C14"),
     "C15": dict(
@@ -164,7 +166,8 @@ CLAIMED = {
              "ingest filter keeps exactly the records that are not the discoverer's own and are strictly below the watched "
              "service; after announcements from any number of different peers it lists exactly those whose TTL has not elapsed; "
              "unescape (escape s) = s for all byte strings. PARTIAL: re-announcements of an instance already heard are covered by "
-             "the DISC slice (model vs implementation, independent python oracle).",
+             "the DISC slice (model vs implementation, independent python oracle; every case through both the sync and the tokio "
+             "copy of the ingest code).",
         technique="Coq proof (composition of the attribute / TXT round trip, the compressed packet round trip and the filter characterisation) + model/implementation correspondence on announcement sequences",
         ref="DESIGN.md section 6, C15"),
     "C16": dict(
@@ -238,7 +241,7 @@ def main():
             "guard": "cfg(simple_dns_verif)",
             "enable": "rustflags --cfg simple_dns_verif, set in /verif/harness/.cargo/config.toml; the harness path-depends on /repo/simple-dns and /repo/simple-mdns so every check rebuilds from /repo's working tree",
             "baseline_off_cmd": "cd /repo && cargo nextest run --workspace --no-fail-fast --offline",
-            "source_commits": ["3c6170d", "559c3ac"],
+            "source_commits": ["3c6170d", "559c3ac", "d33084c"],
             "add_only": True,
         },
         "engines": [
